@@ -236,3 +236,83 @@ def run(report, tier, seed, families):
                     report.failure(clause, b["sig"] + ("/raised=" + ",".join(sorted(set(x.split(":")[-1] for x in b["raised"]))) if b["raised"] else ""),
                                    {"kind": "observe", "id": b["id"], "view": e["view"], "obs": e["obs"], "xml": e["text"], "seed": seed})
     return cov
+
+
+# ------------------------------------------------------------------------------------------
+# the story a roStorySend message exposes (StorySend.story): its script / body against the MESSAGE document
+# ------------------------------------------------------------------------------------------
+def send_story_view(msg_root):
+    """view of the story a roStorySend describes, read directly from the message XML: the children of <storyBody>
+    spliced in place, storyItem = item"""
+    base = msg_root.find("roStorySend")
+    flags = {"exact": False}
+    body, items = [], []
+    for c in base:
+        seq = list(c) if c.tag == "storyBody" else [c]
+        for k in seq:
+            if k.tag == "p":
+                body.append({"kind": "p", "text": [ord(ch) for ch in (k.text or "")], "mixed": len(k) > 0, "id": NONE})
+            elif k.tag in ("storyItem", "item") and (c.tag == "storyBody" or k.tag == "item"):
+                body.append({"kind": "item", "text": [], "mixed": False, "id": _s(project._txt(k, "itemID"))})
+                items.append(project.item_view(k))
+            else:
+                body.append({"kind": "other", "text": [], "mixed": False, "id": NONE})
+    st = {"id": _s(project._txt(base, "storyID")), "slug": _s(project._txt(base, "storySlug")),
+          "sd": NIL, "tt": NIL, "mt": NIL, "st": NIL, "en": NIL, "body": body, "items": items}
+    return {"edstart": NIL, "exact": False, "stories": [st]}
+
+
+def observe_story(st):
+    """obs record for one Story object, shaped like a one-story running order (timing is not judged: exact = FALSE)"""
+    raised = []
+
+    def get(name, fn, default):
+        try:
+            return fn()
+        except Exception as e:  # noqa: BLE001
+            raised.append("%s:%s" % (name, type(e).__name__))
+            return default
+    script = get("story.script", lambda: [codes(s) for s in st.script], [])
+    body = get("story.body", lambda: body_entries(st.body), [])
+    items = get("story.items", lambda: [{"id": _s(it.id), "slug": _s(it.slug), "type": _s(it.type),
+                                         "object_id": _s(it.object_id), "mos_id": _s(it.mos_id), "note": _s(it.note)}
+                                        for it in st.items], [])
+    o = {"id": get("story.id", lambda: _s(st.id), NONE), "slug": get("story.slug", lambda: _s(st.slug), NONE),
+         "duration": NIL, "offset": NIL, "start": NIL, "end_": NIL, "script": script, "body": body, "items": items}
+    return {"raised": raised, "exact": False,
+            "ro": {"duration": NIL, "start": NIL, "end_": NIL, "script": script, "body": body}, "stories": [o]}
+
+
+def run_send(report, tier, seed):
+    """every roStorySend of the bounded generator: StorySend.story's script / body / items against the message"""
+    from xml.etree import ElementTree
+    from .render import Gamma
+    from mosromgr.mostypes import MosFile
+    b = dict(MaxStories=2, Layouts=["plain"], MaxSrc=1, MaxCarried=1, MaxItems=1, ILayouts=["bare"])
+    gen = pipeline.generate("%s-send" % report.prop, ["StorySend"], b, invariants=False)
+    msgs, seen = [], set()
+    for _, m in gen["cases"]:
+        k = json.dumps(m, sort_keys=True)
+        if k not in seen:
+            seen.add(k)
+            msgs.append(m)
+    events = []
+    for i, m in enumerate(msgs):
+        for style in ("pretty", "compact"):
+            g = Gamma("%s|send%d" % (seed, i), style=style)
+            text = g.msg(m)
+            with warnings.catch_warnings():
+                warnings.simplefilter("ignore")
+                mo = MosFile.from_string(text)
+            events.append({"id": "send%d.%s" % (i, style), "view": send_story_view(ElementTree.fromstring(text)),
+                           "obs": observe_story(mo.story), "text": text})
+    bad, jst = pipeline.judge(events, "obs-send-" + report.prop, module="Trace_Observe")
+    byid = {e["id"]: e for e in events}
+    for bd in bad:
+        for clause in bd["clauses"]:
+            if report.prop in OBS_CLAUSES.get(clause, ()):
+                e = byid[bd["id"]]
+                report.failure(clause, "send:" + bd["sig"], {"kind": "send_story", "id": bd["id"], "xml": e["text"],
+                                                             "view": e["view"], "obs": e["obs"], "seed": seed})
+    return {"states": gen["stats"].get("distinct", 0) + jst["states"], "transitions": gen["stats"].get("generated", 0),
+            "traces_validated_against_impl": jst["judged"], "samples": [{"xml": events[0]["text"][:800], "obs": events[0]["obs"]}] if events else []}
